@@ -93,26 +93,34 @@ def opPixFrame (args res : List String) : Verdict :=
          let y0 : Int := y0.toNat!
          let x1 : Int := x1.toNat!
          let y1 : Int := y1.toNat!
+         -- a frame reaching beyond the pixmap is clipped there: an axis with a clipped edge says nothing about the
+         -- centre or the side (the generator places most frames inside; the property is about the unclipped geometry)
+         let clipX := x0 == 0 || x1 == (w : Int)
+         let clipY := y0 == 0 || y1 == (w : Int)
          -- the property, read from the pixels (2 px = a quarter module of tolerance for anti-aliased edges)
          let spec := firstFail [
-           (if within (x1 - x0) (y1 - y0) 1 then none else some "frame-not-square-in-pixels"),
+           (if clipX || clipY || within (x1 - x0) (y1 - y0) 1 then none else some "frame-not-square-in-pixels"),
            (match b.imagePos with
             | some (px, py) =>
-              if within (x0 + x1) (twoPix px) 2 ∧ within (y0 + y1) (twoPix py) 2 then none
+              if (clipX || within (x0 + x1) (twoPix px) 2) ∧ (clipY || within (y0 + y1) (twoPix py) 2) then none
               else some "rendered-frame-not-centred-on-requested-position"
             | none =>
-              if within (x0 + x1) (w : Int) 2 ∧ within (y0 + y1) (w : Int) 2 then none
+              if (clipX || within (x0 + x1) (w : Int) 2) ∧ (clipY || within (y0 + y1) (w : Int) 2) then none
               else some "rendered-frame-not-centred-on-the-symbol"),
            (match b.imageSize, b.imageGap with
             | some sz, some gp =>
               let full := twoPix (sz + gp.double)
-              if 2 * (x1 - x0) ≤ full + 2 ∧ full - 16 - 2 ≤ 2 * (x1 - x0) then none
-              else some "rendered-frame-does-not-exceed-the-image-by-the-gap"
+              let side := if !clipX then some (x1 - x0) else if !clipY then some (y1 - y0) else none
+              (match side with
+               | some d => if 2 * d ≤ full + 2 ∧ full - 16 - 2 ≤ 2 * d then none
+                           else some "rendered-frame-does-not-exceed-the-image-by-the-gap"
+               | none => none)
             | _, _ => none)]
+         let clamp (v : Int) : Int := max 0 (min v (2 * (w : Int)))
          let model := firstFail [
-           (if within (2 * x0) (twoPix f.x) 2 ∧ within (2 * y0) (twoPix f.y) 2 then none
+           (if within (2 * x0) (clamp (twoPix f.x)) 2 ∧ within (2 * y0) (clamp (twoPix f.y)) 2 then none
             else some s!"frame-origin:model({twoPix f.x},{twoPix f.y})/2 got({x0},{y0})"),
-           (if within (2 * x1) (twoPix (f.x + f.border)) 2 ∧ within (2 * y1) (twoPix (f.y + f.border)) 2 then none
+           (if within (2 * x1) (clamp (twoPix (f.x + f.border))) 2 ∧ within (2 * y1) (clamp (twoPix (f.y + f.border))) 2 then none
             else some s!"frame-far-corner:model({twoPix (f.x + f.border)},{twoPix (f.y + f.border)})/2 got({x1},{y1})")]
          { spec := spec, model := model }
        | ["none"], _ => { spec := some "no-frame-in-the-pixmap", model := some "no-frame" }
